@@ -649,3 +649,100 @@ func c17Coverage(c *Ctx) {
 		c.Check(R3, fnm+"|retry-after-not-ignored", f.Pos(), okUsed, ifelse(okUsed, "after a 429 the computed back-off is used only when Retry-After is absent or not positive", "a positive Retry-After on a 429 can be ignored in favour of the computed back-off"))
 	}
 }
+
+// ---------- second mutation-sweep triage ----------
+
+func init() {
+	prev13 := c13CoverageHook
+	c13CoverageHook = func(c *Ctx) { prev13(c); c13Triage2(c) }
+	prev15 := c15CoverageHook
+	c15CoverageHook = func(c *Ctx) { prev15(c); c15ReadAfterClose(c) }
+}
+
+func c13Triage2(c *Ctx) {
+	// (a) helpers that perform an exchange and only report an error: success means the exchange happened
+	const R = "C13.R1.success-needs-exchange"
+	memo := map[*ssa.Function]int{}
+	for _, f := range c.P.FuncsOfPkg(c13PkgRemote) {
+		if f.Parent() != nil || c13IsForwarder(f) || len(c13SendSites(f)) == 0 || !c13ResultsAre(f, [2]string{"", "error"}) {
+			continue
+		}
+		if n := f.Name(); f.Signature.Recv() != nil && (n == "Mount" || n == "Push" || n == "PushReference" || n == "Delete" || n == "Tag") {
+			continue // already an instance of the rule as an exported operation
+		}
+		bad := c13SuccessWithoutExchange(f, 3, memo)
+		detail := "every success path of this exchange helper performs its exchange"
+		if bad != nil {
+			detail = fmt.Sprintf("the return at %s (error %s) reports success without the request having been sent", c.P.Pos(bad.Ret.Pos()), describe(bad.Val))
+		}
+		c.Check(R, FnName(f)+"|exchange-before-success", f.Pos(), bad == nil, detail)
+	}
+	// (b) Predecessors: a failing listing is a failure, not a shorter list
+	const RP = "C13.R1.predecessors-surfaces-failure"
+	c.Expect(RP, 1)
+	if P := c.P.Fn(c13PkgRemote, "Repository.Predecessors"); P != nil {
+		for _, ci := range Calls(P, func(string) bool { return true }) {
+			g := StaticCallee(ci)
+			if g == nil || !inModule(g) || ErrResultIndex(g.Signature) < 0 {
+				continue
+			}
+			r := ErrFlow(ci, ErrFlowOpts{})
+			c.Check(RP, FnName(P)+"|"+FnName(g), ci.Pos(), r.OK, ifelse(r.OK, "the error of the referrers listing is returned", "a failed referrers listing is reported as a (partial) list of predecessors: "+r.Detail))
+		}
+	} else {
+		c.LostAnchor(RP, "~/registry/remote.Repository.Predecessors")
+	}
+}
+
+// c15ReadAfterClose: a reader closed by a plain (non-deferred) Close is not
+// handed to a consumer afterwards (the read would fail, or — for a body that
+// was replaced by an in-memory copy — silently work only in the tests).
+func c15ReadAfterClose(c *Ctx) {
+	const R = "C15.R1.reader-not-closed-before-read"
+	c.Expect(R, 1)
+	n := 0
+	for _, f := range c.P.FuncsOfPkg(c13PkgRemote) {
+		ok, why := true, ""
+		some := false
+		for _, ci := range Calls(f, func(string) bool { return true }) {
+			cl, isCall := ci.(*ssa.Call)
+			if !isCall || !cl.Call.IsInvoke() || cl.Call.Method.Name() != "Close" {
+				continue
+			}
+			some = true
+			al := Aliases(cl.Call.Value)
+			for _, r := range Roots(cl.Call.Value) {
+				for a := range Aliases(r) {
+					al[a] = true
+				}
+			}
+			for _, use := range Calls(f, func(string) bool { return true }) {
+				if use == ci {
+					continue
+				}
+				uses := false
+				for _, a := range use.Common().Args {
+					if al[a] {
+						uses = true
+					}
+				}
+				if use.Common().IsInvoke() && al[use.Common().Value] && use.Common().Method.Name() != "Close" {
+					uses = true
+				}
+				if _, isDefer := use.(*ssa.Defer); isDefer {
+					continue
+				}
+				if uses && Reachable(cl, use.(ssa.Instruction)) {
+					ok, why = false, fmt.Sprintf("the reader closed at %s is used by %s afterwards", c.P.Pos(cl.Pos()), CalleeName(use))
+				}
+			}
+		}
+		if some {
+			n++
+			c.Check(R, FnName(f)+"|close-then-read", f.Pos(), ok, ifelse(ok, "no reader is consumed after its explicit Close", why))
+		}
+	}
+	if n == 0 {
+		c.OK(R, "~/registry/remote|no-explicit-close", 0, "no plain Close calls in the package")
+	}
+}
